@@ -9,6 +9,13 @@
 //! lands at `<path>.conflict-<host>-<short_blake3>`. So both replicas end up with
 //! an identical file set and the pair converges without ever losing data.
 
+#[cfg(paiml_copia_verif)]
+#[allow(unused_imports)]
+use copia_simworld::shim::{fs2, std, tokio};
+#[cfg(paiml_copia_verif)]
+#[allow(unused_imports)]
+use copia_simworld::{eprintln, println};
+
 use super::archive::{archive_path, root_pair_hash, Archive};
 use super::meta::discover_local_fingerprints;
 use super::reconcile::{reconcile, Action, ConflictKind, FpMap};
